@@ -56,6 +56,25 @@ def check(ctx):
            "USE_NUMBA is on" if ok else
            f"the element kinds sent to Numba {kinds} differ from the statement's {sorted(want)} (or the switch is not consulted)",
            clause="every column type eligible for Numba acceleration")
+    # result types: the compiled kernels hand back Python lists of unboxed scalars and aggregate() rebuilds the column from
+    # them without a dtype, so only element types that survive the trip through int / float / bool keep their result type
+    agg_df = repo.fn("dataiter.data_frame.DataFrame.aggregate")
+    rebuilt = [c for _, c in calls_in(agg_df) if isinstance(c.func, ast.Attribute) and c.func.attr == "fast" and len(c.args) == 1 and not c.keywords]
+    admitted_w = _admitted_kinds(repo, un)
+    if rebuilt:
+        for kind in ("integer", "float"):
+            if kind not in admitted_w:
+                continue
+            open_ = _width_open(admitted_w[kind])
+            ctx.ob("SIB-8", un, f"{kind} widths sent to Numba through {admitted_w[kind]}", un.node, not open_,
+                   f"only the 64-bit {kind} dtype is accelerated: its results are rebuilt with the same dtype" if not open_ else
+                   f"use_numba() admits every {kind} width ({admitted_w[kind]}), but the compiled kernels return plain Python scalars and "
+                   f"{norm(rebuilt[0])} rebuilds the column without a dtype: for a uint8 / int32 / uint64 / float32 column max, min, first, "
+                   f"mode come back as int64 / float64 (and the sum of a uint64 column as float64) with USE_NUMBA on, in the column's own "
+                   f"width with it off; float16 is rejected by Numba altogether",
+                   clause="the same result type with USE_NUMBA switched on as with it switched off")
+    else:
+        ctx.note("SIB-8: DataFrame.aggregate no longer rebuilds group-aware results with <Column>.fast(list); result-type rule not applied")
     # pairs
     n_pairs = 0
     seen = set()
@@ -430,4 +449,27 @@ def _admitted_kinds(repo, un):
             for cd in codes:
                 if cd in KIND_CODES:
                     out.setdefault(KIND_CODES[cd], []).append(f"dtype.kind == {cd!r}")
+    # x.dtype == np.int64 / x.dtype in (np.int64, np.float64): one concrete width of a kind
+    for n in body_nodes(un.node):
+        if isinstance(n, ast.Compare) and len(n.ops) == 1 and isinstance(n.ops[0], (ast.Eq, ast.In)) and norm(n.left).endswith(".dtype") \
+                and not norm(n.left).endswith(".dtype.kind"):
+            cmpv = n.comparators[0]
+            elts = cmpv.elts if isinstance(cmpv, (ast.Tuple, ast.List, ast.Set)) else [cmpv]
+            for e in elts:
+                t = norm(e)
+                if t in EXACT_DTYPES:
+                    out.setdefault(EXACT_DTYPES[t], []).append(f"dtype == {t}")
     return out
+
+
+EXACT_DTYPES = {"np.int64": "integer", "np.float64": "float", "np.bool_": "boolean", "bool": "boolean", "int": "integer", "float": "float",
+                "np.int32": "integer", "np.int16": "integer", "np.int8": "integer", "np.uint8": "integer", "np.uint16": "integer",
+                "np.uint32": "integer", "np.uint64": "integer", "np.float32": "float", "np.float16": "float"}
+# dtypes whose values come back from a compiled kernel as Python scalars (int, float, bool) and are rebuilt by NumPy
+# with the SAME dtype: int -> int64, float -> float64, bool -> bool.  datetime64 / timedelta64 come back as NumPy scalars.
+ROUNDTRIP_EXACT = {"np.int64", "np.float64", "np.bool_", "bool", "int", "float"}
+
+
+def _width_open(how):
+    """Does the admission ``how`` (list of texts from _admitted_kinds) admit widths other than the 64-bit one?"""
+    return any(not (h.startswith("dtype == ") and h[len("dtype == "):] in ROUNDTRIP_EXACT) for h in how)
